@@ -57,3 +57,34 @@ package scorch
 //@   mode int
 //@   requires is != nil && offsetsOK(is) && len(is.offsets) > 0
 //@   ensures 0 <= result0 && result0 < len(is.offsets) && is.offsets[result0] <= docNum && (result0+1 == len(is.offsets) || docNum < is.offsets[result0+1]) && result1 == docNum - is.offsets[result0]
+
+// ---- the reader: cursor in global doc numbers (ghost) ----
+//@ ghostfield IndexSnapshotTermFieldReader.gstarted bool
+//@ ghostfield IndexSnapshotTermFieldReader.glast uint64
+
+//@ spec tfrShape(i *IndexSnapshotTermFieldReader) bool = i.snapshot != nil && offsetsOK(i.snapshot) && len(i.iterators) == len(i.snapshot.offsets) && \
+//@     0 <= i.segmentOffset && i.segmentOffset <= len(i.iterators) && forall(k, 0, len(i.iterators), i.iterators[k] != nil) && \
+//@     forall(p, 0, len(i.iterators), forall(q, p+1, len(i.iterators), i.iterators[p] != i.iterators[q])) && \
+//@     forall(k, 0, len(i.iterators)-1, i.snapshot.offsets[k] + segCount(i.iterators[k]) <= i.snapshot.offsets[k+1])
+// iterators of later segments are untouched; a started iterator never ran ahead of the reader;
+// what the current segment can still deliver lies beyond the last returned id
+//@ spec tfrCursor(i *IndexSnapshotTermFieldReader) bool = forall(k, i.segmentOffset+1, len(i.iterators), !i.iterators[k].pstarted) && \
+//@     forall(k, 0, len(i.iterators), implies(i.iterators[k].pstarted, i.gstarted && i.iterators[k].plast < segCount(i.iterators[k]) && i.snapshot.offsets[k] + i.iterators[k].plast <= i.glast)) && \
+//@     implies(i.segmentOffset < len(i.iterators) && i.iterators[i.segmentOffset].pstarted && !i.iterators[i.segmentOffset].pdone, i.glast == i.snapshot.offsets[i.segmentOffset] + i.iterators[i.segmentOffset].plast) && \
+//@     implies(i.gstarted && i.segmentOffset < len(i.iterators) && !i.iterators[i.segmentOffset].pstarted, i.glast < i.snapshot.offsets[i.segmentOffset])
+
+// Next: ids strictly ascending.
+//@ func IndexSnapshotTermFieldReader.Next
+//@   props C08
+//@   mode int
+//@   requires i != nil && tfrShape(i) && tfrCursor(i) && !i.updateBytesRead && !i.includeFreq && !i.includeNorm && !i.includeTermVectors
+//@   modifies i.segmentOffset, i.currID, i.currPosting, i.gstarted, i.glast, segment.PostingsIterator.pstarted, segment.PostingsIterator.plast, segment.PostingsIterator.pdone, fields(index.TermFieldDoc), mem(byte)
+//@   at return: ghost i.gstarted = i.gstarted || (result1 == nil && result0 != nil)
+//@   at return: ghost i.glast = ite(result1 == nil && result0 != nil, idNum(result0.ID), i.glast)
+//@   ensures implies(result1 == nil, tfrShape(i) && tfrCursor(i))
+//@   ensures implies(result1 == nil && result0 != nil, implies(old(i.gstarted), idNum(result0.ID) > old(i.glast)) && idNum(result0.ID) >= i.snapshot.offsets[old(i.segmentOffset)] && i.currPosting != nil && i.currID == result0.ID)
+//@   ensures implies(result1 == nil && result0 != nil && old(i.segmentOffset) < len(i.iterators) && old(i.iterators[i.segmentOffset].pdone), old(i.segmentOffset) + 1 < len(i.iterators) && idNum(result0.ID) >= i.snapshot.offsets[old(i.segmentOffset)+1])
+//@   loop 0: invariant tfrShape(i) && tfrCursor(i) && i.segmentOffset >= old(i.segmentOffset) && i.gstarted == old(i.gstarted) && i.glast == old(i.glast) && rv != nil && i.snapshot == old(i.snapshot) && i.iterators == old(i.iterators)
+//@   loop 0: invariant !i.updateBytesRead && !i.includeFreq && !i.includeNorm && !i.includeTermVectors
+//@   loop 0: invariant implies(old(i.segmentOffset) < len(i.iterators) && old(i.iterators[i.segmentOffset].pdone) && i.segmentOffset == old(i.segmentOffset), i.iterators[i.segmentOffset].pdone)
+//@   loop 0: decreases len(i.iterators) - i.segmentOffset
